@@ -26,7 +26,7 @@ PROPS = {
         ],
     ),
     'C06': dict(
-        verus=['converter', 'tile_bbox'],
+        verus=['converter', 'tile_bbox', 'convert_cli'],
         kani=['pyramid', 'geo'],
         not_decided=[
             'CLI string parsing of --bbox / zoom options (iterator chain, havoc under R9 where extracted)',
@@ -94,7 +94,7 @@ PROPS = {
         ],
     ),
     'C19': dict(
-        verus=['varint_pbf', 'pmtiles_dir', 'filters', 'converter', 'vector_tile_tables', 'pmtiles_reader', 'vector_tile_feature'],
+        verus=['varint_pbf', 'pmtiles_dir', 'filters', 'converter', 'vector_tile_tables', 'pmtiles_reader', 'vector_tile_feature', 'convert_cli'],
         kani=['pmtiles_codec', 'versatiles_codec', 'geo'],
         not_decided=[
             'JSON / TileJSON / CSV / VPL text parsers (String, nom, core::fmt: outside both verifiers; Kani probes timed out)',
